@@ -238,10 +238,13 @@ impl CraneliftCompiler {
         bcx.def_var(self.registers[2], mem_or_mbuf_len);
 
         // Insert the *actual* initial block
-        let program_entry = bcx.create_block();
+        // (a block may already exist for instruction 0 if a jump targets it)
+        let program_entry = *self
+            .insn_blocks
+            .entry(0)
+            .or_insert_with(|| bcx.create_block());
         bcx.ins().jump(program_entry, &[]);
         self.filled_blocks.insert(bcx.current_block().unwrap());
-        self.insn_blocks.insert(0, program_entry);
 
         Ok(())
     }
